@@ -25,6 +25,24 @@ CHECKS = {
     "C20": (True, "bounded exhaustive enumeration of all attributed graphs x all flag sets, on the implementation, vs an independent three-valued implementation of the documented rules",
             "Every graph with <=2 nodes (thorough: 3 nodes over representative types) x 16 type choices incl. unsupported/missing x every edge set with self-loops x output marks x dotted names x 4 registries x all 16 flag combinations: lint must raise ValueError exactly when a documented rule is violated; plus lint on the output of every generator / parser / composition / transform over the (I<=2,G<=2) corpus.",
             TRUST, "4/C20"),
+    "C01": (True, "bounded exhaustive enumeration of circuits x assumptions x solver answers on the implementation; CNF decided by truth-table evaluation of the clause list (no solver) vs reference consistency",
+            "Every gate type at fan-in 1..5 (parity 6) over structurally distinct operands under all name-to-operand assignments (all 24 orders of 4 operands observed); all acyclic and cyclic circuits for (I,G) in {(2,2),(1,3)} (thorough +(3,2),(2,3)), constants, blackbox pins; the clause list of cnf(c) evaluated over all its variables and projected on node variables must equal the brute-force consistent valuations; solve(c,A) for all 3^n partial assignments of <=4(5)-node circuits under enumerated solver answers; nodes named like the encoder's auxiliary variables; 3-5 PYTHONHASHSEEDs.",
+            TRUST + SAT_TRUST, "4/C01"),
+    "C04": (True, "bounded exhaustive enumeration of circuit pairs x startpoint/endpoint subsets on the implementation, vs two independent reference simulations",
+            "c0 from (I<=2,G<=2) incl. feed-through outputs; c1 in {omitted, copy, every single-gate type mutation (mutated gate output or hidden), De-Morgan restructurings, every (2,1) circuit}; every non-empty subset of shared startpoints and shared endpoints plus defaults; sat table over tied + per-copy untied variables compared with OR_e(v0[e]^v1[e]); solve(m,{sat:1}) verdict under both solver polarities.",
+            TRUST + SAT_TRUST, "4/C04"),
+    "C08": (True, "bounded exhaustive enumeration of circuits x assumption sets x solver polarities, plus explicit call histories on one object, on the implementation vs brute-force counting",
+            "model_count for all circuits (I,G) in {(2,2),(3,1)} + constants + zero-startpoint + cyclic (2,2) + blackbox variants x all 3^n assumptions (n<=4 nodes; <=2-node assumptions beyond) x both polarities; cones with 5..8 (10) startpoints; signal_probability for every node (incl. startpoints, constants, outputs that are inputs); approx_model_count with a vendored exact projected counter: return value, sampling set, DIMACS header; depth-3 call histories (count / count with other assumptions / solve / retype / count) on one Circuit object.",
+            TRUST + SAT_TRUST + " approxmc is replaced by vendor/bin/approxmc (exact projected counter).", "4/C08"),
+    "C09": (True, "bounded exhaustive enumeration of circuits x state maps x n (and sequential option products) on the implementation, vs iterated reference simulation over all initial states and input sequences",
+            "unroll: all circuits (I,G) in {(2,2),(3,1),(1,2)} + feed-through outputs x every injective partial map outputs->inputs x n<=3 (5), all initial states and input sequences bit-parallel, exact free-input set; sequential_unroll: logic around 1-2 flops of two pin alphabets x add_flop_outputs x initial_values (None,'0','1',dicts) x remove_unloaded x ignore_pins (str and list, pin names that contain the D/Q port name) x n<=3 (4) vs cycle-accurate simulation of the blackbox circuit, output set, absence of ignored-pin nodes.",
+            TRUST, "4/C09"),
+    "C10": (True, "bounded exhaustive enumeration of circuits x insertion orders on the implementation, all ternary patterns bit-parallel, vs reference Kleene evaluator",
+            "All circuits (3,2,arity<=4), (2,3), (1,3) (thorough +(3,3)) with constants, wide gates, outputs that are inputs/constants, each built in forward and reverse node-insertion order; all 4^I (value, is-X) valuations: mapping[n]==1 iff Kleene X, else n carries the Kleene value.",
+            TRUST, "4/C10"),
+    "C11": (True, "bounded exhaustive enumeration of circuits x nodes x endpoint subsets on the implementation; transforms decided by reference simulation, SAT-backed analyses under enumerated solver answers",
+            "sensitization_transform for every node and every non-empty endpoint subset (cap 3) + defaults, sensitivity_transform for every node over (I,G) in {(2,2),(3,2),(1,2)} + constants + feed-through: sat / dif_out / sen_out tables vs definitions; props.sensitivity/influence/avg_sensitivity/sensitize over (2,2),(3,1),(3,2 arity 2) and cones with 1..5 (8) startpoints incl. functionally constant nodes.",
+            TRUST + SAT_TRUST, "4/C11"),
 }
 
 NOT_YET = "check not built yet in this session (planned in DESIGN.md section 4); not claimed until its machinery exists"
